@@ -1,7 +1,220 @@
 import BarterModel.Lemmas.Drawdown
+/-!
+# C18 — Reported drawdowns are the peak-to-trough declines of the value curve
+
+Statements only (proofs go through `Lemmas/Drawdown.lean`). A curve `pts` is any finite list of
+timed values (no bound on its length, no assumption on the times, equal consecutive values and exact
+recoveries to the previous peak included). `Sheet.run Sheet.default pts` is the executable model of
+the tear-sheet feeding code (`DrawdownGenerator::update` + the Max/Mean generators) the driver
+runs; `decompose`, `specMax`, `specMean` are the abstract spec written from the property text.
+
+The refinement theorems (1)–(8) hold for every curve; positivity of the running maxima
+(`PositivePeaks`, the property's quantifier) is needed only to read `depthOf` as "the relative decline
+at the trough" (theorems (9)–(10)): for a non-positive peak the code's `(peak − v)/peak` is not a
+decline at all and both model and spec report nothing.
+-/
 namespace BarterModel.Props.C18
 open BarterModel.Drawdown
 
-theorem generate_default : Gen.default.generate = none := rfl
+/-! ## The generators compute the decomposition (all curves) -/
+
+/-- (0) `TearSheetAssetGenerator::init` with the first balance, then the rest of the curve, is the
+same as default generators fed the whole curve (what `TearSheetGenerator` does): so every theorem
+below, stated for `Sheet.default`, covers both tear sheets and `DrawdownGenerator::init`. -/
+theorem asset_init_is_first_point (p : Pt) (rest : List Pt) :
+    Sheet.run (Sheet.initAsset p) rest =
+      ((Sheet.run Sheet.default (p :: rest)).1, (Sheet.run Sheet.default (p :: rest)).2) := by
+  have h : Sheet.default.update p = (Sheet.initAsset p, none) := by
+    simp [Sheet.update, Sheet.default, Sheet.initAsset, default_update, init_eq]
+  simp [Sheet.run, h]
+
+/-- (1) The drawdowns returned by `DrawdownGenerator::update` over a whole curve are exactly the
+completed drawdowns of the peak-to-trough decomposition, in order: one per running maximum that was
+followed by a decline and then exceeded; value = largest relative decline of the segment, start =
+that maximum's time, end = time of the point that exceeded it. -/
+theorem completed_drawdowns (pts : List Pt) :
+    (Sheet.run Sheet.default pts).2 = (decompose pts).1 := by
+  rw [sheet_run]
+  cases pts with
+  | nil => simp [Gen.run, decompose]
+  | cons p rest => exact (run_default p rest).1
+
+/-- (2) After any curve, `DrawdownGenerator::generate` reports exactly the decline in progress from
+the latest running maximum (none if there is no decline), ending at the latest point's time. -/
+theorem current_drawdown (pts : List Pt) :
+    (Sheet.run Sheet.default pts).1.gen.generate = (decompose pts).2 := by
+  rw [sheet_run]
+  cases pts with
+  | nil => simp [Gen.run, decompose, Sheet.default, Gen.default, Gen.generate]
+  | cons p rest => exact (run_default p rest).2
+
+/-- (3) Step form of (1): the value `update` returns for the next point `q` is exactly the drawdown
+(if any) that `q` completes. -/
+theorem update_returns_newly_completed (pts : List Pt) (q : Pt) :
+    (decompose (pts ++ [q])).1 =
+      (decompose pts).1 ++ ((Sheet.run Sheet.default pts).1.update q).2.toList := by
+  rw [← completed_drawdowns, ← completed_drawdowns, sheet_run_append]
+  simp [Sheet.run]
+
+/-- (4) The Max generator holds the largest of the completed drawdowns (the earliest among equally
+deep ones), `none` iff there is none. -/
+theorem max_is_largest_completed (pts : List Pt) :
+    (Sheet.run Sheet.default pts).1.max.generate = specMax (decompose pts).1 := by
+  rw [← completed_drawdowns, sheet_run]
+  exact maxFold_eq_specMax _
+
+/-- (5) The Mean generator has counted the completed drawdowns and holds their average depth and
+(integer-millisecond, see (8)) average duration. -/
+theorem mean_is_average_completed (pts : List Pt) :
+    (Sheet.run Sheet.default pts).1.mean = ⟨(decompose pts).1.length, specMean (decompose pts).1⟩ := by
+  rw [← completed_drawdowns, sheet_run]
+  exact meanFold_eq_specMean _
+
+/-- (6) The first `generate` of a tear sheet after any update history reports: the current drawdown;
+the maximum over everything reported (completed drawdowns and the current one); the mean over the
+same. (Both tear sheets' `generate` fold the current drawdown into the Mean/Max generators first.) -/
+theorem first_generate_report (pts : List Pt) :
+    (Sheet.run Sheet.default pts).1.generate.2 =
+      ⟨(decompose pts).2, specMean (reported pts), specMax (reported pts)⟩ := by
+  have h1 := current_drawdown pts
+  have h2 := completed_drawdowns pts
+  rw [sheet_run] at h1 h2
+  simp only at h1 h2
+  rw [sheet_run]
+  unfold Sheet.generate reported
+  simp only [h1, h2]
+  cases hc : (decompose pts).2 with
+  | none =>
+    simp only [Option.toList_none, List.append_nil]
+    rw [show Sheet.default.mean = MeanGen.default from rfl, show Sheet.default.max = MaxGen.default from rfl,
+      meanFold_eq_specMean, maxFold_eq_specMax]
+    rfl
+  | some d =>
+    simp only [Option.toList_some]
+    rw [show Sheet.default.mean = MeanGen.default from rfl, show Sheet.default.max = MaxGen.default from rfl]
+    have e1 : ((decompose pts).1.foldl MeanGen.update MeanGen.default).update d =
+        ((decompose pts).1 ++ [d]).foldl MeanGen.update MeanGen.default := by
+      simp [List.foldl_append]
+    have e2 : ((decompose pts).1.foldl MaxGen.update MaxGen.default).update d =
+        ((decompose pts).1 ++ [d]).foldl MaxGen.update MaxGen.default := by
+      simp [List.foldl_append]
+    rw [e1, e2, meanFold_eq_specMean, maxFold_eq_specMax]
+    rfl
+
+/-- (7) What `specMax` means: the result is one of the drawdowns, no drawdown is deeper, every
+earlier one is strictly shallower; `none` only for the empty list. -/
+theorem specMax_is_largest (ds : List Drawdown) :
+    match specMax ds with
+    | none => ds = []
+    | some m => ∃ as bs, ds = as ++ m :: bs ∧ (∀ a ∈ as, a.value.abs < m.value.abs) ∧
+        (∀ b ∈ bs, b.value.abs ≤ m.value.abs) := by
+  have h := firstMax_foldl ds [] MaxGen.default rfl
+  simp only [List.nil_append] at h
+  rw [← specMax_of_firstMax ds _ h] at h
+  exact h
+
+/-- (7') Every reported drawdown has a strictly positive depth (so the absolute values taken by the
+Max generator are the depths themselves). -/
+theorem reported_depth_pos (pts : List Pt) : ∀ d ∈ reported pts, 0 < d.value := by
+  intro d hd
+  unfold reported at hd
+  cases pts with
+  | nil => simp [decompose] at hd
+  | cons p rest =>
+    have h := run_atPeak rest p [] (by simp)
+    have hp := run_atPeak_pos rest p []
+    simp only [List.nil_append] at h
+    rw [← h.1, ← h.2] at hd
+    rcases List.mem_append.mp hd with hd | hd
+    · exact hp.1 d hd
+    · exact hp.2 d hd
+
+/-- (8) The mean duration is held in whole milliseconds and updated incrementally with truncating
+division, so it is not the exact average; it is within `(n − 1)/2` ms of it:
+`2·|n·mean_ms − Σ durations| ≤ n·(n − 1)`. (Depth: `specMean` carries the exact average
+`Σ depth / n` by definition.) -/
+theorem mean_duration_near_average (ds : List Drawdown) (ms : Int) (h : avgDurationMs ds = some ms) :
+    2 * (((ds.length : Int) * ms - sumDuration ds).natAbs : Int) ≤ (ds.length : Int) * (ds.length - 1) := by
+  cases ds with
+  | nil => simp [avgDurationMs] at h
+  | cons d ds =>
+    simp only [avgDurationMs, Option.some.injEq] at h
+    have hb := stepMs_bound ds d.duration 1 d.duration (by omega) (by omega) (by omega)
+    have hc := stepMs_count ds (d.duration, 1)
+    simp only at hb hc
+    rw [hc, h] at hb
+    simp only [sumDuration, List.map_cons, List.sum_cons, List.length_cons]
+    have e : ((1 + ds.length : Nat) : Int) = ((ds.length + 1 : Nat) : Int) := by omega
+    rw [e] at hb
+    omega
+
+/-! ## What the decomposition is (the spec, unfolded) -/
+
+/-- (9a) A running maximum `p`, followed by points `seg` that do not exceed it, followed by a point
+`q` that does: one completed drawdown (if `seg` declined at all) from `p.t` to `q.t`, and the
+decomposition continues from the new running maximum `q` (which is again positive). -/
+theorem completed_segment (p : Pt) (seg : List Pt) (q : Pt) (rest : List Pt)
+    (h : ∀ x ∈ seg, x.v ≤ p.v) (hq : p.v < q.v) :
+    decompose (p :: (seg ++ q :: rest)) =
+      ((ddOf p seg q.t).toList ++ (decompose (q :: rest)).1, (decompose (q :: rest)).2) ∧
+    (PositivePeaks (p :: (seg ++ q :: rest)) → PositivePeaks (q :: rest)) :=
+  ⟨decompose_exceed p seg q rest h hq, fun hp => by simp only [PositivePeaks] at *; grind⟩
+
+/-- (9b) The latest running maximum `p` followed only by points that do not exceed it: nothing
+completed, the decline (if any) is the current drawdown, ending at the latest point. Points equal
+to the peak (exact recoveries) neither end it nor start a new one. -/
+theorem current_segment (p : Pt) (seg : List Pt) (h : ∀ x ∈ seg, x.v ≤ p.v) :
+    decompose (p :: seg) = ([], ddOf p seg (lastT p seg)) :=
+  decompose_all_le p seg h
+
+/-- (10) Under a positive running maximum the depth of a segment is the peak-to-trough decline:
+it bounds every point's relative decline, it is non-zero exactly when some point is strictly below
+the peak, and then it is the relative decline `(peak − trough)/peak` at a lowest point of the
+segment. -/
+theorem depth_is_peak_to_trough (p : Pt) (seg : List Pt) (hp : 0 < p.v) (h : ∀ q ∈ seg, q.v ≤ p.v) :
+    (∀ q ∈ seg, decline p.v q.v ≤ depthOf p seg) ∧
+    (depthOf p seg ≠ 0 ↔ ∃ q ∈ seg, q.v < p.v) ∧
+    (depthOf p seg ≠ 0 → ∃ q ∈ seg, depthOf p seg = decline p.v q.v ∧ ∀ q' ∈ seg, q.v ≤ q'.v) := by
+  refine ⟨fun q hq => le_largest (List.mem_map.mpr ⟨q, hq, rfl⟩), depthOf_ne_zero_iff p seg hp h, ?_⟩
+  intro hne
+  rcases largest_eq_zero_or_mem (seg.map (fun q => decline p.v q.v)) with h0 | hm
+  · exact absurd h0 hne
+  · obtain ⟨q, hq, e⟩ := List.mem_map.mp hm
+    refine ⟨q, hq, e.symm, ?_⟩
+    intro q' hq'
+    have h1 : decline p.v q'.v ≤ depthOf p seg := le_largest (List.mem_map.mpr ⟨q', hq', rfl⟩)
+    have h2 : decline p.v q'.v ≤ decline p.v q.v := by rw [e]; exact h1
+    exact (decline_le_iff hp).mp h2
+
+/-! ## The instrument tear sheet's curve -/
+
+/-- (11) `TearSheetGenerator::update_from_position` over any list of exited positions feeds the
+generators the cumulative realised PnL curve. -/
+theorem instrument_feeds_pnl_curve (ps : List (Int × Rat)) :
+    (InstrSheet.run InstrSheet.init ps).1.sheet = (Sheet.run Sheet.default (pnlCurve 0 ps)).1 ∧
+    (InstrSheet.run InstrSheet.init ps).2 = (Sheet.run Sheet.default (pnlCurve 0 ps)).2 := by
+  rw [pnlCurve_run]
+  exact ⟨rfl, rfl⟩
+
+/-! ## Non-vacuity and examined boundary -/
+
+/-- a curve with positive peaks: plateau at the peak, a decline, an exact recovery to the peak, a
+deeper trough, a new maximum, a decline in progress -/
+def sample : List Pt := [⟨0, 100⟩, ⟨1, 100⟩, ⟨2, 90⟩, ⟨3, 100⟩, ⟨4, 80⟩, ⟨5, 110⟩, ⟨6, 99⟩]
+
+example : PositivePeaks sample := by decide
+example : (Sheet.run Sheet.default sample).2 = [⟨1/5, 0, 5⟩] := by decide +kernel
+example : (Sheet.run Sheet.default sample).1.gen.generate = some ⟨1/10, 5, 6⟩ := by decide +kernel
+example : ∃ ms, avgDurationMs [⟨1, 0, 0⟩, ⟨1, 0, 3⟩, ⟨1, 0, 3⟩] = some ms := ⟨1, by decide⟩
+/-- hypotheses of (9a), (9b), (10): peak `100 > 0`, a segment not exceeding it, an exceeding point -/
+example : (0 : Rat) < (⟨0, 100⟩ : Pt).v ∧ (∀ x ∈ [(⟨1, 100⟩ : Pt), ⟨2, 90⟩], x.v ≤ (⟨0, 100⟩ : Pt).v) ∧
+    (⟨0, 100⟩ : Pt).v < (⟨5, 110⟩ : Pt).v := by decide
+
+/-- Examined boundary (not part of the property): `generate` takes `&mut self` and folds the
+in-progress drawdown into the Mean/Max generators, so a second `generate` on the same tear sheet
+counts it twice (count 2 for a single reported drawdown). Theorem (6) is about the first call. -/
+example :
+    let s := (Sheet.run Sheet.default [⟨0, 100⟩, ⟨1, 90⟩]).1
+    s.generate.1.mean.count = 1 ∧ s.generate.1.generate.1.mean.count = 2 := by decide +kernel
 
 end BarterModel.Props.C18
